@@ -128,7 +128,7 @@ where
         m0.edges.push(MEdge { val: *e, u: *u, v: *v });
     }
     let nt = sc.tasks.len();
-    let sched = Sched::new(nt, sc.policy.clone(), sched_rng, forced, 4000);
+    let sched = Sched::new(nt, sc.policy.clone(), sched_rng, forced, 100_000);
     for k in 0..world.n() {
         sched.name_lock(k, || {
             let _ = F::out_degree(&world.nodes[k]);
